@@ -139,10 +139,24 @@ Qed.
 Theorem neg_exact r s t e t' :
   py_unop r (Some s) PNeg (OVar t) = Ok e t' -> t' = t /\ (is_int t = true -> forall a b, ieval e a b = Some (wrap t (- a))).
 Proof.
-  unfold py_unop, disp_unary. cbn [is_var negb]. destruct (uop_accepts ONeg t) eqn:E; [|discriminate]. intros H. inversion H; subst. split; [reflexivity|].
-  intros Hi a b. cbn [ieval]. unfold un_sem. destruct t'; try discriminate; reflexivity.
+  unfold py_unop, disp_unary. cbn [is_var negb].
+  destruct (fix_neg_unsigned r && is_uint t) eqn:Eu.
+  - intros H. inversion H; subst. split; [reflexivity|]. intros Hi a b. cbn [ieval]. unfold bin_sem.
+    destruct t'; try discriminate; try (apply andb_prop in Eu; destruct Eu; discriminate); reflexivity.
+  - destruct (uop_accepts ONeg t) eqn:E; [|discriminate]. intros H. inversion H; subst. split; [reflexivity|].
+    intros Hi a b. cbn [ieval]. unfold un_sem. destruct t'; try discriminate; reflexivity.
 Qed.
 
+(* unary - on unsigned element types: ONNX Neg rejects them (pinned tree); the repaired tree emits 0 - x *)
+Theorem neg_unsigned_pinned_rejects r s t : fix_neg_unsigned r = false -> is_uint t = true ->
+  py_unop r (Some s) PNeg (OVar t) = Err EInference.
+Proof. intros Hr Hu. unfold py_unop, disp_unary. cbn [is_var negb]. rewrite Hr. destruct t; try discriminate; reflexivity. Qed.
+Theorem neg_numeric_repaired_ok r s t : fix_neg_unsigned r = true -> In t numeric_ety ->
+  exists e, py_unop r (Some s) PNeg (OVar t) = Ok e t.
+Proof.
+  intros Hr Ht. unfold py_unop, disp_unary. cbn [is_var negb]. rewrite Hr.
+  destruct t; cbn in Ht; try (exfalso; intuition discriminate); cbn; eexists; reflexivity.
+Qed.
 
 Lemma fix_floordiv_ok a b : b <> 0 -> fix_floordiv_z a b = a / b.
 Proof.
@@ -623,7 +637,7 @@ Theorem no_promotion_same_type_ok rt r c o t : In t numeric_ety ->
 Proof.
   intros Ht. unfold disp_arith, promote, promote_type. cbn [tp]. rewrite (proj2 (ety_eqb_eq t t) eq_refl).
   cbn [promote_target tp]. unfold finish_arith, mk_bin.
-  destruct r as [[|] fu]; cbn [fix_floordiv];
+  destruct r as [[|] fu fn]; cbn [fix_floordiv];
   destruct t; cbn in Ht; try (exfalso; intuition discriminate); destruct o; cbn; eexists; reflexivity.
 Qed.
 
